@@ -2,6 +2,11 @@
 // UBJSON max_items, claimed lengths vs. memory actually requested (allocation meter), and
 // stack-safety of copy/compare/dump/destroy on deeply nested values (small fixed thread stack).
 #include "harness.hpp"
+#include <list>
+#include <deque>
+#include <set>
+#include <unordered_set>
+#include <unordered_map>
 #include <map>
 #include <sstream>
 #include "jconv.hpp"
@@ -19,7 +24,11 @@ using namespace jsoncons;
 // ---- allocation meter
 static std::atomic<long long> g_cur{0}, g_peak{0};
 static void note(long long d) { long long c = (g_cur += d); long long p = g_peak.load(); while (c > p && !g_peak.compare_exchange_weak(p, c)) {} }
-void* operator new(std::size_t n) { void* p = malloc(n + 16); if (!p) throw std::bad_alloc(); *(std::size_t*)p = n; note((long long)n); return (char*)p + 16; }
+// a single request above 1 GiB is metered (so the proportionality bound is seen to be broken) and then refused: the harness must not take
+// the machine down when a decoder sizes an allocation by a claimed length
+void* operator new(std::size_t n) {
+    if (n > (std::size_t(1) << 30)) { note((long long)n); note(-(long long)n); throw std::bad_alloc(); }
+    void* p = malloc(n + 16); if (!p) throw std::bad_alloc(); *(std::size_t*)p = n; note((long long)n); return (char*)p + 16; }
 void operator delete(void* p) noexcept { if (!p) return; char* q = (char*)p - 16; note(-(long long)*(std::size_t*)q); free(q); }
 void operator delete(void* p, std::size_t) noexcept { operator delete(p); }
 void* operator new[](std::size_t n) { return operator new(n); }
@@ -178,9 +187,12 @@ int main(int argc, char** argv) {
             std::vector<uint8_t> in;
             if (kind == "array-counted") { in = {'[', '#', 'i', (uint8_t)n}; for (long i = 0; i < n; ++i) { in.push_back('i'); in.push_back(1); } }
             else if (kind == "array-typed") { in = {'[', '$', 'i', '#', 'i', (uint8_t)n}; for (long i = 0; i < n; ++i) in.push_back(1); }
+            else if (kind == "object-typed") { in = {'{', '$', 'i', '#', 'i', (uint8_t)n}; for (long i = 0; i < n; ++i) { in.push_back('i'); in.push_back(1); in.push_back((uint8_t)('a' + i)); in.push_back(1); } }   // {$i#i n  (key, int8 payload)*
             else { in = {'{', '#', 'i', (uint8_t)n}; for (long i = 0; i < n; ++i) { in.push_back('i'); in.push_back(1); in.push_back((uint8_t)('a' + i)); in.push_back('i'); in.push_back(1); } }
             bool ok = accepted([&] { ubjson::decode_ubjson<json>(in, ubjson::ubjson_options{}.max_items(m)); }, err);
             if (ok == c["refuse"].as_bool()) fail(idx, c, ok ? "max_items-exceeded-accepted" : "within-max_items-refused", err);
+            std::string e2; bool okc = accepted([&] { std::error_code ec; ubjson::ubjson_bytes_cursor cur(in, ubjson::ubjson_options{}.max_items(m), ec); while (!ec && !cur.done()) cur.next(ec); if (ec) throw ser_error(ec); }, e2);
+            if (okc == c["refuse"].as_bool()) fail(idx, c, okc ? "max_items-exceeded-accepted-cursor" : "within-max_items-refused-cursor", e2);
         } else if (k == "claim") {
             const std::string& f = c["f"].str(); std::vector<uint8_t> in = bv::bytes_of(c["head"]); auto ex = bv::bytes_of(c["extra"]);
             if (c.has("at") && c["at"].as_int() > 0) {      // enclosing array + one filler string, so that the header ends at the given offset
@@ -220,6 +232,8 @@ int main(int argc, char** argv) {
                 if (pk > bound) fail(idx, c, std::string("memory-proportional-to-claim-typed-") + what, "peak=" + std::to_string(pk) + " bound=" + std::to_string(bound));
             };
             typed("vector<int64>", std::vector<int64_t>{}); typed("vector<string>", std::vector<std::string>{}); typed("map<string,int>", std::map<std::string, int>{}); typed("vector<vector<double>>", std::vector<std::vector<double>>{});
+            typed("unordered_map<string,int>", std::unordered_map<std::string, int>{}); typed("unordered_set<int64>", std::unordered_set<int64_t>{}); typed("set<string>", std::set<std::string>{});
+            typed("deque<string>", std::deque<std::string>{}); typed("list<string>", std::list<std::string>{}); typed("unordered_map<string,vector<int>>", std::unordered_map<std::string, std::vector<int>>{});
         } else if (k == "deep") {
             DeepJob job{c["op"].str(), (long)c["depth"].as_int(), false, ""};
             pthread_attr_t at; pthread_attr_init(&at); pthread_attr_setstacksize(&at, 1 << 20);     // 1 MiB
